@@ -1,0 +1,14 @@
+// SPDX-License-Identifier: MPL-2.0
+
+//! Hooks for the model-checking harness kept outside this repository (feature `verif-hooks`).
+//!
+//! Everything here is additive: thin public wrappers around crate-private items. With the feature
+//! off, none of it is compiled.
+
+/// Raw access to the generic prime-field arithmetic at every instantiated word size.
+pub mod fp {
+    pub use crate::fp::verif_small::{
+        raw_ops_fp128, raw_ops_fp32, raw_ops_fp64, raw_ops_u16_single, raw_ops_u16_split,
+        raw_ops_u8, RawFieldOps,
+    };
+}
